@@ -29,6 +29,8 @@ package main
 //	mat  a = [kind, w, h, seed, p, compact, layers, nd]           -> matrix decoders on an arbitrary BitMatrix
 //	row  a = [kind, n, seed, rowNumber, p], b = chunks (kind 0)   -> RowDecoder.DecodeRow
 //	png  a = [index, mutkind, nmut, mseed, rot, binarizer]        -> Reader.Decode on a sample image of the repository
+//	runs b = run lengths in modules (first run a bar), a = [quiet, scale, height, mode] -> mode 0: Reader.Decode on the
+//	     painted symbol, 1: DecodeRow on its pixel row, 2: DecodeRow on the reversed row
 
 import (
 	"bufio"
@@ -1166,6 +1168,46 @@ func call(e *ev) func() (bool, error) {
 				return r != nil, err
 			}
 			panic("harness: unknown matrix decoder " + e.Api)
+		}
+	case "runs":
+		return func() (bool, error) {
+			q, sc, ht := arg(a, 0, 10), imax(1, arg(a, 1, 1)), imax(1, arg(a, 2, 1))
+			n := 2 * q
+			for _, r := range e.B {
+				n += r
+			}
+			img := grayFill(n*sc, ht, 255)
+			x, black := q*sc, true
+			for _, r := range e.B {
+				if black {
+					for y := 0; y < ht; y++ {
+						for k := x; k < x+r*sc; k++ {
+							img.Pix[y*img.Stride+k] = 0
+						}
+					}
+				}
+				x += r * sc
+				black = !black
+			}
+			if arg(a, 3, 0) == 0 {
+				return decodeWith(e.Api, img, 1, e.H)
+			}
+			row := gozxing.NewBitArray(n * sc)
+			for i := 0; i < n*sc; i++ {
+				if img.Pix[i] == 0 {
+					row.Set(i)
+				}
+			}
+			if arg(a, 3, 0) == 2 {
+				row.Reverse()
+			}
+			hints := hintMap(e.H)
+			dec, ok := reader(e.Api, hints).(oned.RowDecoder)
+			if !ok {
+				panic("harness: " + e.Api + " is not a RowDecoder")
+			}
+			r, err := dec.DecodeRow(0, row, hints)
+			return r != nil, err
 		}
 	case "row":
 		return func() (bool, error) {
